@@ -8,6 +8,7 @@ def specs_direct(tier):
     s += [(DR, "unit_direct_solve", {"nsub": n, "nonhermitian": nh, "timeout_ms": t}) for n, nh in ((1, False), (1, True), (2, True), (3, False))]
     s += [("contracts.kpm", "unit_greens_function", {"timeout_ms": t})]
     s += [("contracts.kpm", "unit_solve_sylvester_KPM", {"nsub": n, "with_aux": a, "timeout_ms": t}) for n, a in ((1, False), (1, True), (2, True))]
+    s += [("contracts.kpm", "unit_solve_sylvester_KPM", {"nsub": n, "with_aux": a, "timeout_ms": t, "defaults": True}) for n, a in ((2, False), (1, True))]
     s += [("contracts.kpm", "unit_rescale", {"kind": k, "bounds_given": bg, "with_lower_bounds": lb, "timeout_ms": t})
           for k, bg, lb in (("dense", True, False), ("sparse", False, False), ("dense", False, True), ("sparse", True, True), ("other", True, False))]
     s += [("contracts.linalg_direct", "unit_constrain_matrix", {"cols_given": cg, "timeout_ms": t}) for cg in (True, False)]
